@@ -497,12 +497,11 @@ def run(tier):
             'logs, statistics, time limits, private file names',
             'measured run times decide nothing',
             'first success in submission order is adopted with one worker',
-            'identities/hashes do not reach text or sort keys (one known '
-            'informational flow)',
+            'identities/hashes do not reach text or sort keys (one flow '
+            'exists: the fresh-variable name, a listed known finding)',
         ],
         clauses_not_decided=[
             'byte-identity of two real runs (an experiment)',
-            'the id -> fresh-name flow pending a witness',
             'scheduling of the pool\'s task-handler thread',
         ],
         assumptions=['dict iteration is insertion ordered; sorted() is '
